@@ -74,9 +74,12 @@ class _Auxiliar(BaseModel):
         """
         if isinstance(value, str):
             try:
-                return json.loads(value)
+                value = json.loads(value)
             except Exception:
                 return value
+        if value == {}:
+            # every field of StatementCondition is optional: an empty object is not a condition block
+            raise ValueError("An empty object is not an instance of any known property")
         return value
 
     @classmethod
